@@ -76,9 +76,11 @@ Rules(pre, post, ev) ==
       tE == IF ev.kind = "modify" /\ ev.stamp = "erase" THEN <<20, 0, 0, 0>> ELSE t2
       trigger == IF ev.kind = "none" THEN <<>> ELSE
         << [rule |-> "event", when |-> <<IsCmd(35)>>, ifstate |-> <<St("n", ev.at - 1), St("phase", 0)>>,
-            effects |-> <<Set("phase", 1), Set("valid", 0), Inc("n")>>,
+            \* 33.11.2: a modification that changes no existing record ID may leave the reservation valid ("keep"):
+            \* then the time stamps are the only signal
+            effects |-> IF ev.keep THEN <<Set("phase", 1), Inc("n")>> ELSE <<Set("phase", 1), Set("valid", 0), Inc("n")>>,
             \* the request that follows the event carries a stale reservation
-            datagrams |-> Reply(IF ev.strict THEN Cancelled
+            datagrams |-> Reply(IF ev.keep THEN GetSdrMsg(post) ELSE IF ev.strict THEN Cancelled
                                 ELSE [op |-> "lookup", key |-> Slice(Plain, 10, 11), table |-> [kk \in {"00"} |-> GetSdrMsg(IF ev.kind = "modify" THEN post ELSE pre)], default |-> Cancelled])] >>
       cur(ph) == IF ph = 1 /\ ev.kind = "modify" THEN post ELSE pre
   IN << [rule |-> "reserve", when |-> <<IsCmd(34)>>, effects |-> <<Inc("resv"), Set("valid", 1)>>,
@@ -105,7 +107,7 @@ Script(id, pre, post, ev) ==
                  exp |-> [prop |-> "C14", outcome |-> "sdrmapByRule", rule |-> "event",
                           ifFired |-> Snapshot(IF ev.kind = "modify" THEN post ELSE pre), ifNot |-> Snapshot(pre), maxreqs |-> 4 * (6 + 2 * (Len(pre) + Len(post)))]] >>]
 
-NoEvent == [kind |-> "none", at |-> 0, strict |-> TRUE, stamp |-> "add"]
+NoEvent == [kind |-> "none", at |-> 0, strict |-> TRUE, stamp |-> "add", keep |-> FALSE]
 \* number of Get SDR requests of one header-then-body walk (only used to choose event positions that can occur)
 WalkReqs(rp) == Len(rp) + Cardinality({i \in 1..Len(rp) : rp[i].type = 1})
 Plainrepos ==
@@ -118,9 +120,11 @@ Events ==
   UNION { LET pre == Repo(b[1] * 10 + b[2], b[1], (b[2] % 2) = 0)
               post == Repo(b[1] * 10 + b[2] + 500, b[1] + ((b[2] % 3) - 1), (b[2] % 2) = 1) IN
           { Script("mod-" \o ToString(b[1]) \o "-" \o ToString(k) \o "-" \o st \o (IF strict THEN "S" ELSE "L"), pre, post,
-                   [kind |-> "modify", at |-> k, strict |-> strict, stamp |-> st]) : k \in 1..(WalkReqs(pre) + 1), strict \in BOOLEAN, st \in {"add", "erase"} }
+                   [kind |-> "modify", at |-> k, strict |-> strict, stamp |-> st, keep |-> FALSE]) : k \in 1..(WalkReqs(pre) + 1), strict \in BOOLEAN, st \in {"add", "erase"} }
+          \cup { Script("modkeep-" \o ToString(b[1]) \o "-" \o ToString(k) \o "-" \o st, pre, post,
+                        [kind |-> "modify", at |-> k, strict |-> TRUE, stamp |-> st, keep |-> TRUE]) : k \in 1..(WalkReqs(pre) + 1), st \in {"add", "erase"} }
           \cup { Script("lose-" \o ToString(b[1]) \o "-" \o ToString(k) \o (IF strict THEN "S" ELSE "L"), pre, <<>>,
-                        [kind |-> "loseresv", at |-> k, strict |-> strict, stamp |-> "add"]) : k \in 1..WalkReqs(pre), strict \in BOOLEAN }
+                        [kind |-> "loseresv", at |-> k, strict |-> strict, stamp |-> "add", keep |-> FALSE]) : k \in 1..WalkReqs(pre), strict \in BOOLEAN }
           : b \in bases }
 
 Scripts == CASE Family = "plain" -> Plainrepos [] Family = "events" -> Events
